@@ -13,6 +13,8 @@ enum Case {
     Crt { a1: i64, m1: i64, a2: i64, m2: i64 },
     /// gcd / lcm on one of the 12 integer types; operands as i128 / u128 text-free raw values
     Typed { ty: u8, a: i128, b: i128 },
+    /// crt over a narrower signed type (0 = i16, 1 = i32): the lcm and every intermediate of the textbook method fit, m1*m2 need not
+    CrtNarrow { ty: u8, a1: i64, m1: i64, a2: i64, m2: i64 },
 }
 
 /// independent gcd: binary (Stein) on magnitudes
@@ -82,11 +84,34 @@ fn lin(a: i64, b: i64, c: i64) -> CaseResult {
 }
 
 fn chinese(a1: i64, m1: i64, a2: i64, m2: i64) -> CaseResult {
+    chinese_with(a1, m1, a2, m2, crt(a1, m1, a2, m2))
+}
+
+fn chinese_narrow(ty: u8, a1: i64, m1: i64, a2: i64, m2: i64) -> CaseResult {
+    let max: i128 = if ty % 2 == 0 { i16::MAX as i128 } else { i32::MAX as i128 };
+    let g = bgcd(m1 as u128, m2 as u128) as i128;
+    let l = m1 as i128 / g * m2 as i128;
+    // domain: the combined modulus fits, and so does (|a2-a1|/g + 1) * (max(m1,m2)/g + 1) * 4 - a generous bound on the cofactors any
+    // Euclid-based method forms
+    let c = (a2 as i128 - a1 as i128).abs();
+    if m1 < 1 || m2 < 1 || a1 < 0 || a2 < 0 || a1 >= m1 || a2 >= m2 || l > max || (c / g + 1) * ((m1.max(m2) as i128) / g + 1) * 4 > max {
+        return Ok(CaseStats::default());
+    }
+    let got = if ty % 2 == 0 { crt(a1 as i16, m1 as i16, a2 as i16, m2 as i16).map(|x| x as i64) } else { crt(a1 as i32, m1 as i32, a2 as i32, m2 as i32).map(|x| x as i64) };
+    let mut st = chinese_with(a1, m1, a2, m2, got)?;
+    if m1 as i128 * m2 as i128 > max {
+        st.nontrivial = true;
+        st.label("narrow-type-lcm-fits-product-does-not");
+    }
+    Ok(st)
+}
+
+fn chinese_with(a1: i64, m1: i64, a2: i64, m2: i64, result: Option<i64>) -> CaseResult {
     let mut st = CaseStats::default();
     let g = bgcd(m1 as u128, m2 as u128) as i128;
     let l = m1 as i128 / g * m2 as i128;
     let compatible = (a2 as i128 - a1 as i128) % g == 0;
-    match crt(a1, m1, a2, m2) {
+    match result {
         Some(x) => {
             vensure!(compatible, "crt/spurious-solution", "crt({}, {}, {}, {}) = Some({}) although the congruences are incompatible (gcd {})", a1, m1, a2, m2, x, g);
             let xi = x as i128;
@@ -187,6 +212,7 @@ fn run_case(c: &Case) -> CaseResult {
             chinese(*a1, *m1, *a2, *m2)
         }
         Case::Typed { ty, a, b } => typed(*ty, *a, *b),
+        Case::CrtNarrow { ty, a1, m1, a2, m2 } => chinese_narrow(*ty, *a1, *m1, *a2, *m2),
     }
 }
 
@@ -243,7 +269,7 @@ fn main() {
         "Cases: (a,b,c) for gcd/lcm/egcd over i64 - exhaustively the cube [-12,12]^3 (quick) / [-30,30]^3 (thorough) minus a=b=0, then \
          generated |.|<=2^20 with bias to zeros, +-1, common factors, c = k*g and k*g+-1; (a1,m1,a2,m2) for crt - exhaustively all moduli \
          1..=40 (quick) / 1..=120 (thorough) with all reduced residues, then generated moduli <= 2^20 with shared factors, solutions \
-         adjacent to the lcm, incompatible pairs; gcd/lcm on all 12 integer types with shifted random magnitudes (signed MIN excluded, \
+         adjacent to the lcm, incompatible pairs, neighbouring Fibonacci / Lucas-type numbers (Euclid's worst case) as coefficients and moduli, crt over i16 / i32 where the combined modulus fits but m1*m2 does not; gcd/lcm on all 12 integer types with shifted random magnitudes (signed MIN excluded, \
          lcm only where it fits). Oracle: independent binary gcd (cross-checked against the definition on the small cube); gcd >= 0; \
          lcm*gcd = |a*b|, lcm >= 0; egcd is Some((x,y)) iff gcd | c and then a*x+b*y = c exactly in i128; crt is Some(x) iff gcd(m1,m2) | \
          a2-a1 and then 0 <= x < lcm, x = a1 (mod m1), x = a2 (mod m2). Non-trivial = a zero or negative operand, or non-coprime moduli. \
@@ -260,6 +286,60 @@ fn main() {
     ctx.exhaustive("crt-small-moduli", "gcd-case", &format!("all moduli 1..={mm} with all reduced residues"), true, all_crt, run_case);
     ctx.prop_split("egcd-generated", "gcd-case", ctx.n(50_000, 12_000_000), ctx.parts(), lin_case().boxed(), run_case);
     ctx.prop_split("crt-generated", "gcd-case", ctx.n(50_000, 12_000_000), ctx.parts(), crt_case().boxed(), run_case);
+    // Euclid's worst case: neighbouring Fibonacci / Lucas numbers (the maximal number of division steps for their size), plain,
+    // with a common factor, with either sign, as egcd coefficients and as crt moduli
+    {
+        let mut seqs: Vec<Vec<i64>> = Vec::new();
+        for (x0, x1) in [(1i64, 1i64), (2, 1), (1, 4), (3, 10)] {
+            let mut v = vec![x0, x1];
+            while v[v.len() - 1] + v[v.len() - 2] <= 1 << 20 {
+                let z = v[v.len() - 1] + v[v.len() - 2];
+                v.push(z);
+            }
+            seqs.push(v);
+        }
+        let mut worst = Vec::new();
+        for v in &seqs {
+            for w in v.windows(3) {
+                for (p, q) in [(w[1], w[2]), (w[2], w[1]), (w[0], w[2])] {
+                    for g in [1i64, 2, 3, 7, 1 << 20] {
+                        let g = g.min((1 << 20) / p.max(q));
+                        if g < 1 {
+                            continue;
+                        }
+                        for (sa, sb) in [(1i64, 1i64), (-1, 1), (1, -1), (-1, -1)] {
+                            for c in [1i64, g, -g, 5 * g, g + 1, 0, (1 << 20) / g * g] {
+                                worst.push(Case::Lin { a: sa * g * p, b: sb * g * q, c });
+                            }
+                        }
+                        for r in [0i64, 1, 12345] {
+                            let (m1, m2) = (g * p, g * q);
+                            let l = m1 / bg(m1, m2) * m2;
+                            let x = (r * 7919 + l - 1 - r) % l;
+                            worst.push(Case::Crt { a1: x % m1, m1, a2: x % m2, m2 });
+                            worst.push(Case::Crt { a1: (x + 1) % m1, m1, a2: x % m2, m2 });
+                        }
+                    }
+                }
+            }
+        }
+        ctx.exhaustive("euclid-worst-cases", "gcd-case", "neighbouring Fibonacci / Lucas-type numbers up to 2^20 as egcd coefficients and crt moduli (plain, with a common factor, all sign patterns)", false, worst, run_case);
+    }
+    // narrow signed types: the combined modulus fits although m1*m2 does not
+    {
+        let narrow = (0u8..2, 1i64..=64, 1i64..=64, any::<u32>(), any::<bool>(), any::<u32>()).prop_map(|(ty, p, q, gsel, compatible, xr)| {
+            let max: i64 = if ty == 0 { i16::MAX as i64 } else { i32::MAX as i64 };
+            // g as large as the lcm g*p*q allows (or a random smaller one)
+            let gmax = (max / (p * q)).max(1);
+            let g = if gsel % 3 == 0 { gmax } else { 1 + gsel as i64 % gmax };
+            let (m1, m2) = (g * p, g * q);
+            let l = m1 / bg(m1, m2) * m2;
+            let x = xr as i64 % l;
+            let a2 = if compatible { x % m2 } else { (x + 1) % m2 };
+            Case::CrtNarrow { ty, a1: x % m1, m1, a2, m2 }
+        });
+        ctx.prop("crt-narrow-types", "gcd-case", ctx.n(30_000, 3_000_000), narrow, run_case);
+    }
     ctx.prop("gcd-lcm-all-integer-types", "gcd-case", ctx.n(60_000, 8_000_000), typed_case(), run_case);
     ctx.finish();
 }
